@@ -52,20 +52,39 @@ def cancelling(den, pos_vars):
     return z3.Sum(*[zr(abs(c)) * m for c, m in terms])
 
 
+def specs():
+    xu, xd, qu, qd, r = z3.Real('xu'), z3.Real('xd'), z3.Real('qu'), z3.Real('qd'), z3.Real('r')
+    x, y, yu, yd = z3.Real('x'), z3.Real('y'), z3.Real('yu'), z3.Real('yd')
+    charges = [qu == zr(Fr(2, 3)), qd == zr(Fr(-1, 3))]
+    # physical quark arguments: xu/xd = (m_u/m_d)^2 in [1000, 4000] (top/bottom), m_H+ in [50, 5000] GeV
+    quark = charges + [xu == r * xd, r >= 1000, r <= 4000, xd >= zr(Fr(1, 10 ** 7)), xd <= zr(Fr(1, 100))]
+    box = [x >= zr(Fr(1, 10 ** 6)), x <= zr(Fr(10 ** 6)), y >= zr(Fr(1, 10 ** 6)), y <= zr(Fr(10 ** 6))]
+    # FCWu/FCWd: (xu, xd) = (mt^2, mb^2)/mH+^2 and (yu, yd) = (mt^2, mb^2)/mW^2, mH+/mW in [0.5, 60]
+    k = z3.Real('k')
+    quark2 = quark + [yu == k * xu, yd == k * xd, k >= zr(Fr(1, 4)), k <= 3600]
+    out = [('f_CSd', 'dddd', [xu, xd, qu, qd], quark, 'xu/xd in [1000,4000], xd in [1e-7,1e-2]', 'hp'),
+           ('f_CSu', 'dddd', [xu, xd, qu, qd], quark, 'xu/xd in [1000,4000], xd in [1e-7,1e-2]', 'hp'),
+           ('FPZ', 'dd', [x, y], box, 'x, y in [1e-6,1e6]', 'each'),
+           ('FSZ', 'dd', [x, y], box, 'x, y in [1e-6,1e6]', 'each'),
+           ('FCWl', 'dd', [x, y], box, 'x, y in [1e-6,1e6]', 'each'),
+           ('FCWu', 'dddddd', [xu, xd, yu, yd, qu, qd], quark2, 'top/bottom arguments, (mH+/mW)^2 in [1/4,3600]', 'hp'),
+           ('FCWd', 'dddddd', [xu, xd, yu, yd, qu, qd], quark2, 'top/bottom arguments, (mH+/mW)^2 in [1/4,3600]', 'hp')]
+    return out
+
+
 def run(chk, mod, lib):
     PHI = mangle_fn('Phi', 'ddd')
-    for name in ('f_CSd', 'f_CSu'):
-        sym = mangle_fn(name, 'dddd')
+    for name, sig, vs, dom, domtxt, move in specs():
+        sym = mangle_fn(name, sig)
         chk.functions.add(sym)
-        xu, xd, qu, qd, r = z3.Real('xu'), z3.Real('xd'), z3.Real('qu'), z3.Real('qd'), z3.Real('r')
-        ufs = dict(LEAF_UFS)
-        ufs[PHI] = uf_phi
+        if name.startswith('f_CS'):
+            ufs = dict(LEAF_UFS)
+            ufs[PHI] = uf_phi
+        else:
+            ufs = dict(C02.UFS)
         ex = executor(mod, RealDom(), ufs=ufs)
         ex.max_steps = 200000
-        st = ex.start(sym, [xu, xd, qu, qd])
-        # physical quark arguments: xu/xd = (m_u/m_d)^2 in [1000, 4000] (top/bottom), m_H+ in [50, 5000] GeV
-        dom = [qu == zr(Fr(2, 3)), qd == zr(Fr(-1, 3)), xu == r * xd, r >= 1000, r <= 4000,
-               xd >= zr(Fr(1, 10 ** 7)), xd <= zr(Fr(1, 100))]
+        st = ex.start(sym, vs)
         st.pc += dom
         try:
             paths = ex.explore(st)
@@ -74,7 +93,7 @@ def run(chk, mod, lib):
             chk.not_covered.append('conditioning of %s not executed (%s)' % (name, str(e)[:80]))
             continue
         chk.absorb_executor(ex)
-        nf = native_fn(lib, sym, 4)
+        nf = native_fn(lib, sym, len(vs))
         nret = 0
         cands = []
         for i, p in enumerate(paths):
@@ -94,46 +113,56 @@ def run(chk, mod, lib):
                 cands.append((p, den, M))
                 r_, m = chk.prove(tag, p.pc + [den < zr(THR) * M, -den < zr(THR) * M], family='conditioning',
                                   sample={'obligation': '%s: a denominator formed by cancellation (%s) is at least 2e-14 of the '
-                                          'magnitude of its terms on every path that divides by it (xu/xd in [1000,4000], '
-                                          'xd in [1e-7,1e-2])' % (name, str(z3.simplify(den, som=True))[:80])})
+                                          'magnitude of its terms on every path that divides by it (%s)'
+                                          % (name, str(z3.simplify(den, som=True))[:80], domtxt)})
                 if r_ != 'sat':
                     continue
-                pt = [float(m.real(v)) for v in (xu, xd)] + [2 / 3., -1 / 3.]
-                msgs = []
+                pt = [float(m.real(v)) for v in vs]
                 pts = [pt]
-                for sg in (1, -1):
-                    s_ = math.sqrt(pt[1])
-                    pts.append([(1 + sg * s_) ** 2, pt[1], pt[2], pt[3]])
+                if name.startswith('f_CS'):
+                    for sg in (1, -1):
+                        s_ = math.sqrt(pt[1])
+                        pts.append([(1 + sg * s_) ** 2, pt[1], pt[2], pt[3]])
 
                 def coupled(v, base, d):
                     v[1] = base[1] * (1 + d)
                 bad = None
                 for q_ in pts:
-                    msg = probe(name, nf, q_, 0, coupled)
-                    chk.traces_validated += 22
-                    if msg:
-                        bad = (q_, msg)
+                    for idx in ([0] if move == 'hp' else range(len(vs))):
+                        msg = probe(name, nf, q_, idx, coupled if move == 'hp' else None)
+                        chk.traces_validated += 22
+                        if msg:
+                            bad = (q_, msg)
+                            break
+                    if bad:
                         break
                 key = 'C11:%s:ill-conditioned-quotient' % name
                 if bad:
-                    chk.violation(tag, key, '%s divides by %s although it can be as small as %.3g of its terms; at (xu=%r, xd=%r) '
-                                  'along m_H+: %s' % (name, str(z3.simplify(den, som=True))[:60], float(THR), bad[0][0], bad[0][1], bad[1]),
-                                  '#!/bin/sh\ncd %s && exec python3-vt -m props.replay_c11 quotient %s dddd %s\n' % (
-                                      VERIF, name, ' '.join(repr(float(x)) for x in bad[0])))
+                    chk.violation(tag, key, '%s divides by %s although it can be as small as %.3g of its terms; at %r: %s'
+                                  % (name, str(z3.simplify(den, som=True))[:60], float(THR), bad[0], bad[1]),
+                                  '#!/bin/sh\ncd %s && exec python3-vt -m props.replay_c11 quotient %s %s %s\n' % (
+                                      VERIF, name, sig, ' '.join(repr(float(x)) for x in bad[0])))
                 else:
                     chk.record(tag, 'gap', 'ill-conditioned quotient reachable in exact arithmetic but native values inside the 1% band',
                                family='conditioning')
         if nret == 0:
             chk.record('conditioning:' + name, 'gap', 'no returning path')
-        # vacuity guard: with a threshold 1000 times larger the same query must have a solution on some path
+        # vacuity guard: with a relaxed threshold the same query must have a solution on some path; the smallest
+        # relaxation (of 1e3, 1e6, 1e9, 1e12) that is satisfiable also documents the margin the code keeps
         wit = False
-        for p, den, M in cands:
-            r_, m = chk.solve(p.pc + [den < zr(1000 * THR) * M, -den < zr(1000 * THR) * M], 20000)
-            if r_ == 'sat':
-                wit = True
+        margin = None
+        for fac in (10 ** 3, 10 ** 6, 10 ** 9, 10 ** 12):
+            for p, den, M in cands:
+                r_, m = chk.solve(p.pc + [den < zr(fac * THR) * M, -den < zr(fac * THR) * M], 20000)
+                if r_ == 'sat':
+                    wit = True
+                    margin = fac
+                    break
+            if wit:
                 break
+        chk.extra.setdefault('conditioning_margin', {})[name] = ('|den| < %g * terms reachable' % float(margin * THR)) if wit else None
         chk.record('conditioning:%s:witness' % name, 'discharged' if wit else 'gap',
-                   '' if wit else 'no path divides by a cancelling denominator within 2e-11 of zero: the obligation is vacuous',
+                   '' if wit else 'no path divides by a cancelling denominator within 2e-2 of zero: the obligation is vacuous',
                    family='conditioning-witness',
-                   sample={'obligation': '%s: the conditioning query with the threshold relaxed to 2e-11 is satisfiable '
-                           '(the obligation is not vacuous)' % name})
+                   sample={'obligation': '%s: the conditioning query with a relaxed threshold is satisfiable '
+                           '(the obligation is not vacuous)' % name, 'relaxed_threshold': float(margin * THR) if wit else None})
